@@ -12,7 +12,11 @@
 //	   content, 2 sibling layouts), x 3 ways of producing the content
 //	   (Bytes(k) | Bytes(k+1) Unwrite(1) | U8 Bytes(k-1); for the 64K sizes the last
 //	   two only on single-level chains) x 4 sibling layouts,
-//	C  AddASN1 with every identifier octet 0..255 x content sizes {0,127,128}.
+//	C  AddASN1 with every identifier octet 0..255 x content sizes {0,127,128},
+//	Q24 (both tiers) 14 fixed programs at the 2^24 boundary: content 2^24-1, 2^24,
+//	   2^24+5 under a 24-bit prefix, a 32-bit prefix, AddASN1, and a 24-bit prefix
+//	   nested in a 32-bit prefix; a 24-bit prefix around an ASN.1 element of total
+//	   size 2^24-1 / 2^24.
 //
 // Every program runs on the real Builder (zero value; and, except for the largest
 // class of family A and three of the four sibling layouts of the >4096-byte programs
@@ -302,11 +306,12 @@ func readItems(s *cryptobyte.String, items []cbref.Item) string {
 // ---------------------------------------------------------------------------
 
 type checker struct {
-	c        *vf.Ctx
-	vals     *cbref.Values
-	seed     maphash.Seed
-	fixedMax int // programs with a peak above this get only the capacities P-1, P, P+1
-	scratch  sync.Pool
+	c          *vf.Ctx
+	vals       *cbref.Values
+	seed       maphash.Seed
+	fixedMax   int // programs with a peak above this get only the capacities P-1, P, P+1
+	scratch    sync.Pool
+	bigScratch []byte
 
 	mu       sync.Mutex
 	outcomes map[string]int64
@@ -424,6 +429,8 @@ func (k *checker) checkFixed(prog []*cbref.Op, initial []byte, m *cbref.Result, 
 		sp := k.scratch.Get().(*[]byte)
 		defer k.scratch.Put(sp)
 		scratch = *sp
+	} else if m.Peak+1 <= len(k.bigScratch) {
+		scratch = k.bigScratch // family Q24 (sequential)
 	} else {
 		scratch = make([]byte, m.Peak+1)
 	}
@@ -754,6 +761,44 @@ func (k *checker) familyB(maxDepth int, bounds []int, tag string) {
 	c.Set("family"+tag+"_space", map[string]any{"chains": len(chains), "max_depth": maxDepth, "content_sizes": len(sizes), "content_variants": 3, "sibling_layouts": 4})
 }
 
+// familyQ24 is the fixed set of 2^24-boundary programs that also runs in quick: the
+// content sizes 2^24-1, 2^24, 2^24+5 under a 24-bit prefix (the last two must fail),
+// under a 32-bit prefix and under AddASN1 (must succeed with lengths ffffff / 01000000 /
+// 01000005 in the 4-byte prefix resp. the 0x83/0x84 long form), a 24-bit prefix nested
+// in a 32-bit prefix, and a 24-bit prefix whose content is an ASN.1 child pushed over
+// the limit by its own header. Each on a zero (growing) Builder and on fixed builders
+// of capacity need-1, need, need+1.
+func (k *checker) familyQ24() {
+	c := k.c
+	const B = 1 << 24
+	var progs [][]*cbref.Op
+	bytesOp := func(n int) []*cbref.Op { return []*cbref.Op{{Kind: cbref.Bytes, Arg: n}} }
+	for _, n := range []int{B - 1, B, B + 5} {
+		progs = append(progs,
+			[]*cbref.Op{{Kind: cbref.LP24, Kids: bytesOp(n)}},
+			[]*cbref.Op{{Kind: cbref.LP32, Kids: bytesOp(n)}},
+			[]*cbref.Op{{Kind: cbref.ASN1, Arg: 0x04, Kids: bytesOp(n)}},
+			[]*cbref.Op{{Kind: cbref.U16}, {Kind: cbref.LP32, Kids: []*cbref.Op{{Kind: cbref.LP24, Kids: bytesOp(n)}, {Kind: cbref.U8}}}},
+		)
+	}
+	// 24-bit prefix around an ASN.1 element of total size 2^24-1 (fits) and 2^24 (does not)
+	for _, n := range []int{B - 1 - 5, B - 5} {
+		progs = append(progs, []*cbref.Op{{Kind: cbref.LP24, Kids: []*cbref.Op{{Kind: cbref.ASN1, Arg: 0x30, Kids: bytesOp(n)}}}})
+	}
+	// Sequential on purpose: first-touch page faults of fresh 16 MiB blocks dominate when
+	// the programs run side by side; one after the other (with a collection in between)
+	// the heap reuses the same few blocks.
+	st := newStats()
+	k.bigScratch = make([]byte, B+64)
+	for _, p := range progs {
+		k.check("Q24", p, true, false, st)
+		runtime.GC()
+	}
+	k.bigScratch = nil
+	k.merge(st)
+	c.Set("familyQ24_space", map[string]any{"programs": len(progs), "content_sizes": []int{B - 1, B, B + 5}})
+}
+
 func (k *checker) familyC() {
 	c := k.c
 	c.ParallelFor(256, func(tag int) {
@@ -776,10 +821,7 @@ func run(c *vf.Ctx) {
 	c.Assume("de-facto behaviour: a builder that carries an error does not invoke continuations of later length-prefixed adds; AddValue always calls Marshal")
 	c.Assume("misuse that the documentation answers with a panic (Unwrite beyond the builder's own content, writing to a builder whose child is pending) counts as detected when it panics with a cryptobyte message or yields an error")
 
-	poolLen := 1<<16 + 512
-	if c.Thorough {
-		poolLen = 1<<24 + 512
-	}
+	poolLen := 1<<24 + 512 // family Q24 needs 2^24+5 bytes in both tiers
 	base := c.Bytes("c22-pool", 0, 1<<16+512)
 	pool := make([]byte, poolLen)
 	for i := 0; i < poolLen; i += len(base) {
@@ -825,6 +867,8 @@ func run(c *vf.Ctx) {
 	}
 	k.familyC()
 	phase("C")
+	k.familyQ24()
+	phase("Q24")
 	if c.Thorough {
 		k.familyB(4, []int{128, 256, 65536}, "B")
 		phase("B")
